@@ -240,6 +240,8 @@ func C13(c *core.Ctx) {
 	// R7 extent of the buffered packet handed up by the data plane
 	c13PacketExtent(c)
 
+	applyActionLookups(c, "R3")
+
 	// R3 drain loops
 	if fn := fnOf(c, "R3", pkgFwd, "Gtp5g", "applyAction"); fn != nil {
 		pop := p.Method(pkgBuff, "Server", "Pop")
@@ -715,4 +717,60 @@ func c13PacketExtent(c *core.Ctx) {
 	})
 	c.Floor("R7", n, 1, "packet slices in decodbuffer")
 	_ = p
+}
+
+// applyActionLookups: see the comment at its call in C13.
+func applyActionLookups(c *core.Ctx, rule string) {
+	// R3 rule look-ups of the release: each object is fetched under (this session, its own id) - the FAR under
+	// the FAR id handed in, each PDR under an id of that FAR's PDR list, each QER under an id of that PDR's
+	// QER list (the three look-ups are copies of one line; a left-over id fetches another rule's QFI)
+	if fn := fnOf(c, rule, pkgFwd, "Gtp5g", "applyAction"); fn != nil {
+		want := map[string]string{"GetFAROID": "param", "GetPDROID": "PDRIDs", "GetQEROID": "QERID"}
+		n := 0
+		core.Instrs(fn, func(in ssa.Instruction) {
+			cl, ok := in.(*ssa.Call)
+			if !ok {
+				return
+			}
+			f := core.Callee(cl)
+			if f == nil || f.Pkg() == nil || f.Pkg().Path() != core.PkgGtp5gnl || want[f.Name()] == "" {
+				return
+			}
+			n++
+			var oid ssa.Value
+			for _, a := range cl.Call.Args {
+				if nn, ok := a.Type().(*types.Named); ok && nn.Obj().Name() == "OID" {
+					oid = a
+				}
+			}
+			vals := sliceLiteralValues(oid)
+			good, got := false, "?"
+			if len(vals) == 2 && core.Unwrap(vals[0]) == ssa.Value(core.Param(fn, 0)) {
+				id := core.Unwrap(vals[1])
+				for {
+					if cv, ok := id.(*ssa.Convert); ok {
+						id = core.Unwrap(cv.X)
+						continue
+					}
+					break
+				}
+				switch y := id.(type) {
+				case *ssa.Parameter:
+					got = "param"
+					good = want[f.Name()] == "param" && y == core.Param(fn, 1)
+				case *ssa.UnOp:
+					if ia, ok := y.X.(*ssa.IndexAddr); ok {
+						if _, path := core.FieldPath(ia.X); len(path) > 0 {
+							got = path[len(path)-1]
+							good = got == want[f.Name()]
+						}
+					}
+				}
+			}
+			c.Check(rule, fmt.Sprintf("lookup-id:%s#%d", f.Name(), n), cl.Pos(), good,
+				fmt.Sprintf("%s is addressed with (the function's SEID, %s) - got %s", f.Name(), map[string]string{"param": "the FAR id parameter", "PDRIDs": "an element of the FAR's PDRIDs", "QERID": "an element of the PDR's QERID list"}[want[f.Name()]], got))
+		})
+		c.Floor(rule, n, 3, "rule look-ups in applyAction")
+	}
+
 }
